@@ -402,6 +402,14 @@ class Parser:
             else:
                 body = self.expr()
             return ("closure", params, body)
+        if v == "[":
+            items = []
+            while not self.accept("]"):
+                items.append(self.expr())
+                if self.peek()[1] == ";":
+                    raise Untranslatable("[x; n]")
+                self.accept(",")
+            return ("vec", items)
         if k == "ident" and v == "vec!":
             self.expect("[")
             items = []
@@ -847,6 +855,17 @@ class Emitter:
                 if ty in ("N", "Z"):
                     return "(%s.%s %s %s)" % (ty, name, ta, tb), ty
                 raise Untranslatable("max/min on %r" % (ty,))
+            if name == "len" and not args:
+                ta, ty = self.expr(obj, env)
+                if not (isinstance(ty, tuple) and ty[0] == "list"):
+                    raise Untranslatable("len on %r" % (ty,))
+                return "(N.of_nat (length %s))" % ta, "N"
+            if name == "then_some" and len(args) == 1:
+                ta, ty = self.expr(obj, env, "bool")
+                if ty != "bool":
+                    raise Untranslatable("then_some on %r" % (ty,))
+                tb, tyb = self.expr(args[0], env, self.opt_inner(want))
+                return "(if %s then Some %s else None)" % (ta, tb), ("option", tyb)
             if name == "clamp":
                 # x.clamp(lo, hi) = if x < lo {lo} else if x > hi {hi} else {x}  (= min(max(x, lo), hi) for lo <= hi)
                 if len(args) != 2:
@@ -1029,6 +1048,12 @@ class Emitter:
                 if tty != "N":
                     raise Untranslatable("table index of type %r" % (tty,))
                 return "(nth (N.to_nat %s) %s (zero num))" % (ti, TABLES[tname]), NUMT
+            tb_, tyb_ = self.expr(base, env)
+            if isinstance(tyb_, tuple) and tyb_[0] == "list" and tyb_[1] == NUMT:
+                ti, tty = self.expr(e[2], env, "N")
+                if tty != "N":
+                    raise Untranslatable("list index of type %r" % (tty,))
+                return "(nth (N.to_nat %s) %s (zero num))" % (ti, tb_), NUMT
             raise Untranslatable("index")
         raise Untranslatable("expr kind %s" % k)
 
@@ -1582,7 +1607,7 @@ IMPORTS = "From Coq Require Import ZArith NArith QArith Bool List.\nFrom Similar
 GEN_FILES = [("Scalar", []), ("ScalarBox", ["Scalar"]), ("ScalarCost", ["Scalar"]), ("ScalarGate", ["Scalar", "ScalarBox", "ScalarCost"]),
              ("ScalarClip", ["Scalar"]),
              ("ScalarVisual", ["Scalar", "ScalarBox", "ScalarCost", "ScalarGate"]), ("ScalarNms", ["Scalar", "ScalarBox"]),
-             ("ScalarOwnArea", ["Scalar", "ScalarBox"]), ("ScalarTracker", ["Scalar"])]
+             ("ScalarOwnArea", ["Scalar", "ScalarBox"]), ("ScalarTracker", ["Scalar"]), ("ScalarKalmanBox", ["Scalar", "ScalarBox"])]
 
 
 def gen_scalar(repo, man):
